@@ -2,7 +2,8 @@
 """setup_cmd: engine self-test (nothing is downloaded or compiled).
  1. a contract known to verify must verify (dns.wirebase.Parser.seek);
  2. canary: the same contract with a false postcondition must produce a sat obligation;
- 3. the solvers answer."""
+ 3. vacuity canaries (false goal fails; contradictory instantiated hypotheses are reported vacuous);
+ 4. the solvers answer."""
 import os, sys
 ROOT = os.path.dirname(os.path.dirname(os.path.abspath(__file__)))
 REPO = os.environ.get("VERIF_REPO", "/repo")
@@ -18,6 +19,21 @@ c2 = copy.copy(c); c2.ensures = list(c.ensures) + ["self.current == where + 1"]
 reg.contracts[c.name] = c2
 r2 = verify_contract(reg, c2)
 assert r2["status"] == "failed", r2["status"]
+# 3. vacuity canaries on the heap lemma: a false goal must fail, contradictory hypotheses must be reported vacuous,
+#    and dropping a postcondition of the callee contract must break the lemma (the lemma really uses it)
+from pyvc.api import verify_lemma
+base = reg.lemmas["lru_unlink_removes_from_ring"]
+l = copy.copy(base); l.goals = ["j == j + 1"]
+assert verify_lemma(reg, l)["status"] == "failed"
+l = copy.copy(base); l.pre_hyps = list(base.pre_hyps) + ["all(order[i] == order[i + 1] for i in range(len(order) - 1))"]
+assert verify_lemma(reg, l)["status"] == "vacuous"
+u = reg.contracts["dns.resolver.LRUCacheNode.unlink"]
+full = list(u.ensures)
+u.ensures = full[1:]
+try:
+    assert verify_lemma(reg, copy.copy(base))["status"] == "failed"
+finally:
+    u.ensures = full
 from pyvc.path import external_solve
 assert external_solve("(declare-const x Int)(assert (> x 3))(assert (< x 3))", 10)[0] == "unsat"
-print("selftest ok: verify, canary, external solvers")
+print("selftest ok: verify, canary, vacuity canaries, external solvers")
